@@ -1042,7 +1042,7 @@ def post_two_signals(w: World, snap: dict[str, Any], info: dict[str, Any]) -> tu
 
 # ----------------------------------------------------------------------------------------------- C12 replay
 def _event_rows(w: World) -> list[dict[str, Any]]:
-    return [dict(r) for r in w.q("SELECT sequence, event_type, entity_type, entity_id, workflow_id, data FROM events ORDER BY sequence")]
+    return [dict(r) for r in w.q("SELECT sequence, event_id, event_type, entity_type, entity_id, workflow_id, data FROM events ORDER BY sequence")]
 
 
 def _jump_marked(w: World) -> set[str]:
@@ -1170,9 +1170,15 @@ def check_event_state_consistency(w: World, when: str) -> tuple[str, Any] | None
             if row["id"] not in last_completion:
                 return ("events/durable_completion_without_event/%s/%s" % (row["tbl"], when), {"entity": row["id"], "status": row["new"], "by": row["ctx"]})
     durable_ids = {r["sequence"] for r in rows}
+    durable_event_ids = {r["event_id"] for r in rows}
+    told: Counter = Counter()
     for ev in w.bus_log:
-        if getattr(ev, "sequence", None) not in durable_ids:
-            return ("events/subscriber_notified_of_non_durable_event/%s" % when, {"event": str(getattr(ev, "event_type", ev)), "sequence": getattr(ev, "sequence", None)})
+        eid = getattr(ev, "event_id", None)
+        told[eid] += 1
+        if getattr(ev, "sequence", None) not in durable_ids or (eid is not None and eid not in durable_event_ids):
+            return ("events/subscriber_notified_of_non_durable_event/%s" % when, {"event": str(getattr(ev, "event_type", ev)), "sequence": getattr(ev, "sequence", None), "event_id": eid})
+        if eid is not None and told[eid] > 1:
+            return ("events/subscriber_notified_twice/%s" % when, {"event": str(getattr(ev, "event_type", ev)), "event_id": eid})
     return None
 
 
